@@ -11,6 +11,7 @@ pub mod replay {
     pub fn load(bytes: Vec<u8>) {
         BYTES.with(|b| *b.borrow_mut() = (bytes, 0));
         COVERED.with(|c| c.borrow_mut().clear());
+        LOG.with(|l| l.borrow_mut().clear());
     }
     /// Next replayed byte; when the recorded values are exhausted the replay
     /// continues with zeros and the exhaustion is counted.
@@ -27,6 +28,20 @@ pub mod replay {
             let b = b.borrow();
             (b.1, b.0.len())
         })
+    }
+    thread_local! {
+        static LOG: RefCell<Vec<String>> = const { RefCell::new(Vec::new()) };
+    }
+    pub fn log(msg: String) {
+        LOG.with(|l| {
+            let mut l = l.borrow_mut();
+            if l.len() < 200 {
+                l.push(msg);
+            }
+        });
+    }
+    pub fn log_list() -> Vec<String> {
+        LOG.with(|l| l.borrow().clone())
     }
     pub fn covered(msg: &str) {
         COVERED.with(|c| c.borrow_mut().push(msg.to_string()));
@@ -86,5 +101,14 @@ macro_rules! vcover {
         if $c {
             $crate::nd::replay::covered($m);
         }
+    }};
+}
+
+/// Records an event of the run for the decoded trace of a native replay (no-op under Kani).
+#[macro_export]
+macro_rules! vlog {
+    ($($t:tt)*) => {{
+        #[cfg(not(kani))]
+        $crate::nd::replay::log(format!($($t)*));
     }};
 }
